@@ -40,10 +40,10 @@ ACTIONS = ["ASelectHandler", "AEncodePassword", "AAuthUser", "AAuthOwner", "AAut
 
 SPACES = {
     "quick": [("auth", "AuthQuick", "PairsQuick", "AllTried", "CanonItem"),
-              ("dict", "DictCfg", "CanonPair", "DictTried", "CanonItem"),
+              ("dict", "AllDictCfg", "CanonPair", "DictTried", "CanonItem"),
               ("content", "ContentQuick", "CanonPair", "OpenTried", "AllItems")],
     "thorough": [("auth", "AuthFull", "PairsQuick", "AllTried", "CanonItem"),
-                 ("dict", "DictCfg", "CanonPair", "DictTried", "CanonItem"),
+                 ("dict", "AllDictCfg", "CanonPair", "DictTried", "CanonItem"),
                  ("authpw", "AuthPw", "PairsFull", "AllTried", "CanonItem"),
                  ("content", "ContentFull", "CanonPair", "OpenTried", "AllItems"),
                  ("mixed", "MixedCfg", "MixedPairs", "MixedTried", "AllItems")],
